@@ -111,7 +111,9 @@ def model_exe():
 if __name__ == "__main__":
     h = build_harness()
     print(h)
-    ok, out = lake_build(["Econf", "econf_model", "Econf.Props.All"])
+    sys.path.insert(0, VERIF)
+    from gen import extract_facts  # Generated/Facts.lean is not tracked: always re-extracted from /repo
+    ok, out = lake_build(["Econf", "econf_model", "Econf.Props.All"], pre=extract_facts.generate)
     print("lake:", ok)
     if not ok:
         print(out[-3000:])
